@@ -30,7 +30,7 @@ def main():
     names = sorted(n for n in os.listdir(SEEDED) if os.path.exists(os.path.join(SEEDED, n, "meta.json")))
     if len(sys.argv) > 1:
         names = [n for n in names if any(a in n for a in sys.argv[1:])]
-    with ThreadPoolExecutor(16) as ex:
+    with ThreadPoolExecutor(12) as ex:
         for name, res in ex.map(one, names):
             if res is None:
                 print(name, "APPLY-FAIL")
